@@ -5,8 +5,8 @@
       [wf16 H]          no stored reaction is empty or has an empty rule name; every species occurring in a reaction is
                         registered and has a non-empty index entry; [order] is a duplicate-free enumeration of the ids;
                         molecule labels only for registered species.  Implied by the store invariant of C15 ([C16_inv_wf]).
-      [strings_domain]  rules non-empty and blank-free; species labels = a letter followed by any characters except white
-                        space and the format's own separators + * | >  (the parser's pattern "digits, letter, anything"):
+      [strings_domain]  (7-bit ASCII text) rules non-empty and blank-free; species labels = a letter followed by any characters
+                        except white space and the format's own separators + * | >  (the parser's pattern "digits, letter, anything"):
                         identifiers, formulae and SMILES-like labels, e.g. CC(=O)O, C#C, Fe(OH)3 ([ex_label_domain]).
       [rxns_of H]       the stored reactions (rule, reactants, products) as a list; multiset equality is [≡ₚ]. *)
 From stdpp Require Import gmap strings sets.
